@@ -56,6 +56,7 @@ type uiCase struct {
 	Seps   []int      `json:"seps"`
 	Filler string     `json:"filler"`
 	N      int        `json:"n"`
+	Rel    bool       `json:"rel"` // render / parts: grant "declared minimum + n" lines
 	Which  string     `json:"which"`
 	NRegs  int        `json:"nregs"`
 	WithIP bool       `json:"withip"`
@@ -406,7 +407,10 @@ func init() {
 			if u == nil {
 				break
 			}
+			zzverifui.RelMin = c.Rel
 			r := u.s.Render(c.N)
+			zzverifui.RelMin = false
+			ev.N = r.N
 			ev.Min, ev.Max, ev.Lines, ev.Panic, ev.Err = r.Min, r.Max, r.Lines, r.Panic, r.Err
 			ev.Shown = r.Shown
 			_, ev.Mode = u.s.UI.VerifMode()
@@ -433,7 +437,10 @@ func init() {
 				} else {
 					sess = &zzverifui.Session{}
 				}
+				zzverifui.RelMin = c.Rel
 				r := sess.RenderParts(c.Which, st, []memory.Memory{m1, m2}, c.N)
+				zzverifui.RelMin = false
+				ev.N = r.N
 				ev.Min, ev.Max, ev.Lines, ev.Panic, ev.Err = r.Min, r.Max, r.Lines, r.Panic, r.Err
 				if r.Panic != "" {
 					panic(r.Panic)
